@@ -36,9 +36,14 @@ def flush(run, drv, reqs):
     lines = [f"(c02.td {L.op_sx(op)} {L.spec_sx(spec)})" for (_, spec, op, _, _) in reqs]
     answers = ask_chunked(drv, lines)
     for (stream, spec, op, spelling, lock), line, ans in zip(reqs, lines, answers):
-        td = L.build(spec)
-        if lock:
-            td.lock_()
+        try:
+            td = L.build(spec)
+            if lock:
+                td.lock_()
+        except Exception as e:  # noqa: BLE001
+            # a coherent TensorDict of provenance leaves must be constructible: this is a failure of the library, not of the harness
+            run.oracle_fail("shape_op", {"td": L.spec_sx(spec)}, f"constructing the input tensordict raised {type(e).__name__}: {str(e)[:120]}", "build:raises")
+            continue
         impl, raw = L.run_impl(td, op, spelling)
         model = parse_sx(ans)
         case = {"op": list(op), "td": L.spec_sx(spec), "spelling": spelling, "locked": lock}
@@ -183,6 +188,62 @@ def main():
             spec = L.gen_tree(rng, bs, named=rng.random() < 0.4)
             one_case(run, reqs, spec, op, "td:grid")
         flush(run, drv, reqs)
+
+    # ---- 3b. repeat / repeat_interleave(dim given): model vs implementation vs torch spec
+    rep_cases, rep_lines = [], []
+    for i in range(400 if quick else 5000):
+        rank = rng.choice([1, 1, 2, 2, 3, 4]) if rng.random() < 0.85 else 0
+        bs = tuple(rng.choice(L.DIMS if rng.random() < 0.4 else (1, 2, 3)) for _ in range(rank))
+        spec = L.gen_tree(rng, bs, named=rng.random() < 0.45)
+        wild = rng.random() < 0.25
+        if rng.random() < 0.5:
+            reps = [rng.choice([0, 1, 1, 2, 3]) for _ in range(rank)]
+            if wild:
+                r = rng.random()
+                if r < 0.4 and reps:
+                    reps[rng.randrange(rank)] = -1
+                elif r < 0.7:
+                    reps = reps + [1]
+                elif reps:
+                    reps = reps[:-1]
+            if rank == 0 and not reps:
+                continue
+            rep_cases.append(("repeat", spec, (tuple(reps),)))
+            rep_lines.append(f"(c02.repeat ({' '.join(map(str, reps))}) {L.spec_sx(spec)})")
+        else:
+            if rank == 0:
+                continue
+            d = rng.randint(-rank - 2, rank + 1) if wild else rng.randrange(-rank, rank)
+            r = rng.choice([-1, 0, 1, 2]) if wild else rng.choice([0, 1, 2, 3])
+            rep_cases.append(("repeat_interleave", spec, (r, d)))
+            rep_lines.append(f"(c02.ri {r} {d} {L.spec_sx(spec)})")
+    for (kind, spec, args), ans in zip(rep_cases, ask_chunked(drv, rep_lines)):
+        td = L.build(spec)
+        try:
+            with L.time_limit(5.0):
+                r = td.repeat(*args[0]) if kind == "repeat" else td.repeat_interleave(args[0], dim=args[1])
+            impl = ["ok", L.canon(r)]
+        except Exception as e:  # noqa: BLE001
+            impl = ["err", L.err_class(e)]
+        run.case((kind, str(args), L.spec_sx(spec)))
+        run.count("rep.outcome", impl[0] if impl[0] == "ok" else "err:" + impl[1])
+        run.corr("td:" + kind, {"kind": kind, "args": list(args), "td": L.spec_sx(spec)}, impl, parse_sx(ans))
+        L.oracle_ext(run, kind, [spec], (args[0],) if kind == "repeat" else (args[0], args[1]))
+    # torch spec of repeat / repeat_interleave on plain provenance tensors
+    import torch
+    sp_cases, sp_lines = [], []
+    for shape in ([(2,), (0,), (1, 3), (2, 3), (3, 1, 2), (2, 0, 2)] + ([] if quick else L.all_shapes(3))):
+        if not shape:
+            continue
+        for _ in range(6):
+            reps = tuple(rng.choice([0, 1, 2, 3]) for _ in shape)
+            sp_cases.append(("repeat", shape, reps)); sp_lines.append(f"(c02.torch_repeat ({' '.join(map(str, reps))}) ({' '.join(map(str, shape))}))")
+            d = rng.randrange(len(shape)); r = rng.choice([0, 1, 2, 3])
+            sp_cases.append(("ri", shape, (r, d))); sp_lines.append(f"(c02.torch_ri {r} {d} ({' '.join(map(str, shape))}))")
+    for (kind, shape, a), ans in zip(sp_cases, ask_chunked(drv, sp_lines)):
+        t = torch.arange(L.numel(shape), dtype=torch.int64).reshape(shape)
+        want = t.repeat(*a) if kind == "repeat" else t.repeat_interleave(a[0], dim=a[1])
+        run.corr("spec:" + kind, {"shape": list(shape), "args": list(a)}, ["ok", L.canon(want)], parse_sx(ans))
 
     # ---- 4. extended domain (oracle only): repeat / repeat_interleave / gather / masked_select / stack / cat (+ out=)
     for i in range(700 if quick else 8000):
